@@ -262,3 +262,5 @@ TEXT["C12"]["level"] += (" A reference returned by from_qualified_name always ha
                          "MementoCodec.decode_fn_reference is proved to hand that on and MementoCodec.decode_arg never to raise FunctionNotFoundError for a stored function-valued argument (both decoders run in this check as well as in C11's).")
 TEXT["C14"]["level"] += " DependencyGraph.parse_key, by which the graph is linked, is proved to be the inverse of the rule-key construction 'kind;namespace;name' (kind and namespace without ';')."
 TEXT["C14"]["note"] += " The worklist DependencyGraph._rules_until_first_memento_fn that links the graph (df() / graph()) is not under contract."
+TEXT["C05"]["level"] += (" DataSourceMetadataSource.list_mementos is proved to make exactly one listing -- of the function's own directory, not recursive, no name prefix, only '.memento.json' files, "
+                         "with the caller's limit -- and to return the memento read from every listed key, in the order listed, nothing dropped or added (reading one memento is an assumed function of source and key).")
